@@ -98,8 +98,8 @@ Section Grammar.
       G_elems pos (etoks ++ comma ++ more) (el :: els)
   with G_elem : N -> list ttree -> list ttree -> option fop * pat -> Prop :=
   | GEl_pos pos pre rest p : G_pat pre rest p -> G_elem pos pre rest (None, p)
-  | GEl_idx pos otoks colon ptoks rest ops p :
-      G_fop otoks (colon ++ ptoks ++ rest) ops -> root_field_name ops = Some (FIndex pos) ->
+  | GEl_idx pos otoks colon ptoks rest ops p isp :
+      G_fop otoks (colon ++ ptoks ++ rest) ops -> root_field_name ops = Some (FIndex pos isp) ->
       is_punct ":" colon -> G_pat ptoks rest p ->
       G_elem pos (otoks ++ colon ++ ptoks) rest (Some ops, p)
 
